@@ -32,7 +32,7 @@ type Program struct {
 	Pkgs    []*packages.Package          // module packages (initial)
 	ByPath  map[string]*packages.Package // import path -> package (module packages only)
 	SSA     *ssa.Program
-	SSAPkgs map[string]*ssa.Package // import path -> ssa package (module packages only)
+	SSAPkgs map[string]*ssa.Package  // import path -> ssa package (module packages only)
 	Funcs   map[string]*ssa.Function // "<pkg suffix>::<name>" -> function (module, non-anonymous)
 	AllFns  []*ssa.Function          // every module function incl. anonymous, deterministic order
 	LoadS   float64
